@@ -18,6 +18,12 @@ def same_rows(a, b, n=None):
     return z3.And(a.len == b.len, forall(lambda k: z3.Implies(z3.And(0 <= k, k < n), a[k].z == b[k].z)))
 
 
+def same_repr(a, b):
+    """list a is a copy of list b in the list model: same backing array and window (implies same_rows
+    without a quantifier)"""
+    return z3.And(a.arr == b.arr, a.lo == b.lo, a.hi == b.hi)
+
+
 def fresh_list(o, n, lst):
     """`lst` was allocated during the call"""
     return z3.And(lst.z >= o.alloc, lst.z < n.alloc)
@@ -55,6 +61,7 @@ class _:
                             s.original_name.z == o.original_name.z, s.original_tags.z == o.original_tags.z)),
             ("rows-fresh", fresh_list(o, n, new)),
             ("rows-copied", z3.If(src.is_none, new.len == 0, same_rows(new, src.val))),
+            ("rows-copied-repr", z3.If(z3.Or(src.is_none, src.val.len == 0), new.len == 0, same_repr(new, src.val))),
             ("alloc-grows", n.alloc >= o.alloc),
         ]
 
